@@ -199,7 +199,7 @@ pub fn run_case_best(c: &Case) -> Option<Ply> {
 
 /// positions: seeds, bench FENs, and positions reached by random play (kept with their move history)
 /// roots with exactly one legal move (in check and not), and roots without any (mated, stalemated)
-pub const FORCED: [(&str, &str); 10] = [
+pub const FORCED: [(&str, &str); 16] = [
     // a knight mates a king walled in by its own immobile men: the mated side has no pseudo-legal move AT ALL (one ply below the root)
     ("k7/8/8/8/6p1/3nr1P1/4P1PB/5BRK b - - 0 1", ""),
     ("7k/8/8/8/1p6/1P1rn3/BP1P4/KRB5 b - - 0 1", ""),
@@ -211,6 +211,14 @@ pub const FORCED: [(&str, &str); 10] = [
     ("8/8/8/8/8/5k2/4p3/4K3 w - - 0 1", ""),
     ("k7/8/1Q6/8/8/8/8/7K b - - 0 1", ""),
     ("rnb1kbnr/pppp1ppp/8/4p3/6Pq/5P2/PPPPP2P/RNBQKBNR w KQkq - 1 3", ""),
+    // lines that run into a STALEMATE one or two plies below the root (the line ends before the depth is used up; a stalemated
+    // node is never stored by the search itself): pawn on the seventh, queen too close to a cornered king, both colours
+    ("5k2/5P2/4K3/8/8/8/8/8 w - - 0 1", ""),
+    ("8/8/8/8/8/3k4/3p4/3K4 b - - 0 1", ""),
+    ("7k/5K2/8/6Q1/8/8/8/8 w - - 0 1", ""),
+    ("8/8/8/8/1q6/8/2k5/K7 b - - 0 1", ""),
+    ("k7/P7/1K6/8/8/8/8/8 w - - 0 1", ""),
+    ("8/8/8/8/8/6k1/7p/7K b - - 0 1", ""),
 ];
 
 fn positions(rng: &mut Rng, n: usize, bench: bool) -> Vec<(String, Vec<String>)> {
@@ -1220,15 +1228,96 @@ fn ep_discovery_setup(rng: &mut Rng) -> Option<Board> {
     Some(b)
 }
 
+/// endings with minor pieces only (plus, sometimes, one pawn): a king in or next to a corner, the other king a knight's move or
+/// two squares away, the minor pieces nearby, the cornered side's own man often next to its king (smothering).  Mates in one
+/// with two knights, bishop and knight, two bishops, or one minor piece against a king hemmed in by its own piece — the
+/// positions an "insufficient material" shortcut gets wrong
+fn minor_ending_setup(rng: &mut Rng) -> Option<Board> {
+    let mut g: [Option<char>; 64] = [None; 64];
+    let sq = |f: i32, r: i32| (r * 8 + f) as usize;
+    let on = |f: i32, r: i32| (0..8).contains(&f) && (0..8).contains(&r);
+    // the cornered (black, mirrored later) king: the corner itself or a neighbour of it
+    let (cf, cr) = [(7, 7), (0, 7), (7, 0), (0, 0)][rng.below(4) as usize];
+    let (kf, kr) = loop {
+        let f = cf + [0, -1, 1, 0][rng.below(4) as usize];
+        let r = cr + [0, 0, 0, if cr == 7 { -1 } else { 1 }][rng.below(4) as usize];
+        if on(f, r) {
+            break (f, r);
+        }
+    };
+    g[sq(kf, kr)] = Some('k');
+    // the attacking king two squares away (opposition or a knight's move)
+    let offs = [(0, 2), (2, 0), (0, -2), (-2, 0), (1, 2), (2, 1), (-1, 2), (-2, 1), (1, -2), (2, -1), (-1, -2), (-2, -1), (2, 2), (-2, -2), (2, -2), (-2, 2)];
+    let (of_, or_) = offs[rng.below(offs.len() as u64) as usize];
+    if !on(kf + of_, kr + or_) {
+        return None;
+    }
+    g[sq(kf + of_, kr + or_)] = Some('K');
+    let near = |rng: &mut Rng, g: &[Option<char>; 64], reach: i32| -> Option<usize> {
+        for _ in 0..20 {
+            let f = kf + rng.below((2 * reach + 1) as u64) as i32 - reach;
+            let r = kr + rng.below((2 * reach + 1) as u64) as i32 - reach;
+            if on(f, r) && g[sq(f, r)].is_none() {
+                return Some(sq(f, r));
+            }
+        }
+        None
+    };
+    let attackers: &[char] = match rng.below(6) {
+        0 => &['N', 'N'],
+        1 => &['B', 'N'],
+        2 => &['B', 'B'],
+        3 => &['N'],
+        4 => &['B'],
+        _ => &['N', 'N', 'B'],
+    };
+    for c in attackers {
+        let s = near(rng, &g, 3)?;
+        g[s] = Some(*c);
+    }
+    // the cornered side's own men: none, one minor piece, or a pawn, usually right next to the king
+    match rng.below(5) {
+        0 => {}
+        1 | 2 => {
+            let s = near(rng, &g, 1)?;
+            g[s] = Some(if rng.below(2) == 0 { 'n' } else { 'b' });
+        }
+        3 => {
+            let s = near(rng, &g, 1)?;
+            if s / 8 != 0 && s / 8 != 7 {
+                g[s] = Some('p');
+            }
+        }
+        _ => {
+            let s = near(rng, &g, 2)?;
+            g[s] = Some(if rng.below(2) == 0 { 'n' } else { 'b' });
+        }
+    }
+    let fen = format!("{} {} - - 0 1", super::grid_placement(&g), if rng.below(4) == 0 { "b" } else { "w" });
+    let white = Board::from_fen(&fen);
+    let b = if rng.below(2) == 0 { white } else { Board::from_fen(&super::walk::mirror_fen_pub(&fen)) };
+    if b.is_in_check(b.current_turn.opposite()) || b.get_piece_count(Kind::King(Color::White)) != 1 || b.get_piece_count(Kind::King(Color::Black)) != 1 {
+        return None;
+    }
+    Some(b)
+}
+
 fn mate_mode(rng: &mut Rng, count: usize, maxdepth: u8, shard: usize, of: usize, cache_off: bool) {
     let mut found = 0usize;
     let mut tries = 0u64;
     let mut per_cat = [0usize; 3];
     while found < count && tries < 2_000_000 {
         tries += 1;
-        // a quarter each: sparse random positions, bare king vs heavy pieces, castling set-ups next to the enemy king, random play from the seeds
-        let src = rng.below(5);
-        let mut b = if src == 0 {
+        // a sixth each: sparse random positions, bare king vs heavy pieces, castling set-ups next to the enemy king, random play from the
+        // seeds, en-passant discoveries, minor-piece endings
+        let src = rng.below(6);
+        let mut b = if src == 5 {
+            // minor pieces only: two knights, bishop and knight, one minor piece against a hemmed-in king
+            match minor_ending_setup(rng) {
+                Some(b) => b,
+                None => continue,
+            }
+        } else if src == 0 {
             match random_sparse(rng) {
                 Some(b) => b,
                 None => continue,
